@@ -15,7 +15,7 @@ def run_harness(k, repo='/repo', tier='quick'):
     t0 = time.time()
     scratch = tempfile.mkdtemp(prefix='verif_kani_')
     res = {'harness': k['name'], 'features': k.get('features', 'default'), 'status': 'pass', 'reason': '', 'checks': 0, 'checks_ok': 0,
-           'scope': k.get('bounded', 'complete: loop-free harness over the full domain of `char`')}
+           'scope': k.get('scope', k.get('bounded', 'complete: loop-free harness over the full domain of `char`'))}
     try:
         dst = os.path.join(scratch, 'repo')
         shutil.copytree(repo, dst, ignore=shutil.ignore_patterns('target', '.git', 'fuzz', 'benchmarks', 'images'))
